@@ -370,7 +370,7 @@ func cmdSetup() int {
 	rc := 0
 	for _, id := range sortedIDs() {
 		for _, p := range checks[id].Parts {
-			k := fmt.Sprint(p.Harness, p.Instrument, p.FsPoints)
+			k := fmt.Sprint(p.Harness, p.Instrument, p.FsPoints, len(p.Probes))
 			if seen[k] {
 				continue
 			}
